@@ -3,9 +3,29 @@ import oracles
 from props import runbase
 from props import c03 as _c03
 
+def name_is_component(w, rng):
+    """A multi-file torrent whose name is also the name of one of its files or directories (an extension-less file
+    inside a same-named folder, a folder repeated one level down): the file still goes to Data/<name>/<path...>."""
+    import worldgen
+    nm = rng.choice([b"notes", b"README", b"disc", b"x"])
+    shape = rng.choice(["top", "top+sibling", "dir", "deep"])
+    F = worldgen.TFile
+    files = {"top": [F([nm], worldgen.rand_content(rng, rng.randint(1, 6)))],
+             "top+sibling": [F([nm], worldgen.rand_content(rng, rng.randint(1, 6))), F([b"other.bin"], worldgen.rand_content(rng, rng.randint(1, 5)))],
+             "dir": [F([nm, b"a.bin"], worldgen.rand_content(rng, rng.randint(1, 6))), F([b"b.bin"], worldgen.rand_content(rng, 3))],
+             "deep": [F([nm, nm], worldgen.rand_content(rng, rng.randint(1, 6))), F([nm, b"c"], worldgen.rand_content(rng, 2))]}[shape]
+    t = worldgen.TorrentSpec(nm, rng.choice([2, 4, 8]), files, False)
+    if any(t.info_hash == u.info_hash for u in w.torrents):
+        return
+    w.torrents.append(t)
+    w.presented = list(w.presented) + [len(w.torrents) - 1]
+    for k, f in enumerate(t.files):
+        w.put_file(tuple(list(w.scans[0]) + [b"nic_%d" % k]), f.content)
+
+
 correspondence, search, replay, ASSUMPTIONS = runbase.make(
     "C12", [oracles.c12, oracles.c03],
-    [("std", 200, 2000, {}, None), ("odd", 60, 500, {}, _c03.odd_names)],
-    "generated worlds incl. unicode / nested names, odd names (dots with invisible characters, backslashes, components of 255-300 bytes), padding and empty files, torrents sharing names, prior export states absent/shorter/exact/longer; export tree listing after the run vs the documented layout, plus trace validation against the model",
+    [("std", 200, 2000, {}, None), ("odd", 60, 500, {}, _c03.odd_names), ("namecomp", 24, 200, {}, name_is_component)],
+    "generated worlds incl. unicode / nested names, multi-file torrents whose name is also the name of one of their files or directories, odd names (dots with invisible characters, backslashes, components of 255-300 bytes), padding and empty files, torrents sharing names, prior export states absent/shorter/exact/longer; export tree listing after the run vs the documented layout, plus trace validation against the model",
     "target_*_shape (export/<40 hex>/Data/name[/path...]), good_op (SetLen to the declared length; only targets of non-padding segments are ever created or written) proved; tied to the code by trace validation",
     ["distinct info-hashes give distinct 40-digit directory names (C07_hex_injective)"])
